@@ -529,6 +529,7 @@ class Differential:
     def judge(self, case, impl_line, model_line, spec_line):
         """-> (corr_ok, oracle_failure or None, known id or None)"""
         corr_ok = (model_line is None) or (impl_line == model_line)
+        self.current_model_line = model_line      # oracles justified by a model theorem may consult the model's output
         of = self.oracle(case, impl_line, spec_line)
         kn = None
         if of is not None and corr_ok:
@@ -576,6 +577,7 @@ class Differential:
             return res
         small = ddmin(case, lambda cs: [r for r in fails_only(self, cs, build)])
         impl, model, spec = self.eval_cases([small])
+        self.current_model_line = model[0]
         run.violation({
             "kind": "property-oracle-failed-on-implementation",
             "build": build, "case": self.describe(small), "original_case_ops": len(case.ops),
@@ -640,6 +642,7 @@ def generic_replay(diff, path):
     for b in diff.bins:
         if not diff.applicable(case, b):
             continue
+        diff.current_model_line = model[0]
         of = diff.oracle(case, impl[b][0], spec[b][0])
         print(f"[{b}] impl : {impl[b][0]}\n[{b}] spec : {spec[b][0]}\n[{b}] oracle: {'FAIL ' + str(of) if of else 'ok'}; correspondence: {'ok' if model[0] in (None, impl[b][0]) else 'DIFFERS'}")
         bad = bad or of is not None or model[0] not in (None, impl[b][0])
